@@ -212,7 +212,10 @@ func (n *normalizer) normalizeOnce(pkgs []*packages.Package, overlay map[string]
 		sort.SliceStable(es, func(i, j int) bool { return es[i].start > es[j].start })
 		buf := append([]byte{}, src...)
 		for _, e := range es {
-			buf = append(buf[:e.start], append([]byte(e.text), buf[e.end:]...)...)
+			if os.Getenv("PORTLINT_NORM_DEBUG") != "" {
+				fmt.Fprintf(os.Stderr, "edit %s [%d,%d) replaced=%q by %q\n", name, e.start, e.end, string(src[e.start:e.end]), e.text)
+			}
+			buf = splice(buf, e.start, e.end, e.text)
 		}
 		if imps := n.imports[name]; len(imps) > 0 {
 			// add the imports right after the package clause
@@ -230,7 +233,7 @@ func (n *normalizer) normalizeOnce(pkgs []*packages.Package, overlay map[string]
 			for _, path := range paths {
 				fmt.Fprintf(&ib, "\nimport %s %q", imps[path], path)
 			}
-			buf = append(buf[:eol], append([]byte(ib.String()), buf[eol:]...)...)
+			buf = splice(buf, eol, eol, ib.String())
 		}
 		out[name] = buf
 	}
@@ -740,8 +743,14 @@ func (n *normalizer) rewriteBody(c *candidate, lbl string, id int, res, named []
 	sort.Slice(eds, func(i, j int) bool { return eds[i].s > eds[j].s })
 	buf := append([]byte{}, src[p0.Offset+1:pEnd.Offset]...)
 	base := p0.Offset + 1
+	if os.Getenv("PORTLINT_NORM_DEBUG") != "" {
+		fmt.Fprintf(os.Stderr, "rewriteBody %s: body=%q eds=%v\n", c.decl.Name.Name, string(buf), eds)
+	}
 	for _, e := range eds {
-		buf = append(buf[:e.s-base], append([]byte(e.t), buf[e.e-base:]...)...)
+		buf = splice(buf, e.s-base, e.e-base, e.t)
+	}
+	if os.Getenv("PORTLINT_NORM_DEBUG") != "" {
+		fmt.Fprintf(os.Stderr, "rewriteBody result=%q\n", string(buf))
 	}
 	return string(buf)
 }
@@ -1082,11 +1091,19 @@ func (n *normalizer) exprPass(p *packages.Package, file *ast.File, fn *ast.FuncD
 		sort.Slice(eds, func(i, j int) bool { return eds[i].s > eds[j].s })
 		buf := append([]byte{}, src[p0.Offset:p1.Offset]...)
 		for _, e := range eds {
-			buf = append(buf[:e.s-p0.Offset], append([]byte(e.t), buf[e.e-p0.Offset:]...)...)
+			buf = splice(buf, e.s-p0.Offset, e.e-p0.Offset, e.t)
 		}
 		n.replace(call, "("+string(buf)+")")
 		n.handled[call] = true
 		expanded[cand.obj]++
 		return false // nested calls are handled in the next round
 	})
+}
+
+// splice returns buf[:start] + text + buf[end:] in fresh memory.
+func splice(buf []byte, start, end int, text string) []byte {
+	out := make([]byte, 0, len(buf)+len(text))
+	out = append(out, buf[:start]...)
+	out = append(out, text...)
+	return append(out, buf[end:]...)
 }
